@@ -196,3 +196,25 @@ Qed.
 
 Theorem wiring_query_roots_nonempty : Nat.leb 20 (List.length roots_query) = true.
 Proof. vm_compute. reflexivity. Qed.
+
+(* ---- state outside the committed store (C01) ---- *)
+(* Everything the consensus code can remember between two calls must live in the multistore: a restarted process has
+   forgotten everything else, and a context that is discarded must take its writes with it.  [process_state] lists, for
+   the packages on the consensus path, the fields of the keeper / decorator / server / module structs and the
+   package-level variables.  None of them may be able to hold mutable state of its own: no pointer, map, slice,
+   channel, sync or atomic type, no package-level variable at all.  (Interfaces to other keepers, store keys, codecs and
+   strings fixed at construction are what is there.) *)
+Fixpoint str_contains (p s : string) : bool :=
+  String.prefix p s || match s with EmptyString => false | String _ r => str_contains p r end.
+Definition mutable_markers : list string := ["*"; "map["; "[]"; "chan "; "sync."; "atomic."; ": var "].
+Definition holds_process_state (e : string) : bool := existsb (fun m => str_contains m e) mutable_markers.
+
+Theorem wiring_no_process_state : filter holds_process_state process_state = [] /\ Nat.leb 40 (List.length process_state) = true.
+Proof. vm_compute. split; reflexivity. Qed.
+
+(* the checker does flag what the seeded in-memory caches looked like *)
+Example holds_process_state_flags :
+  map holds_process_state ["x/beacon/keeper: Keeper.params *paramsCache"; "x/wrkchain/keeper: Keeper.ownerCache *sync.Map";
+                           "x/beacon/keeper: Keeper.owners map[uint64]sdk.AccAddress"; "x/stream/keeper: var lastSeen int64";
+                           "x/stream/keeper: Keeper.authority string"] = [true; true; true; true; false].
+Proof. vm_compute. reflexivity. Qed.
